@@ -110,11 +110,20 @@ def run_grid(W, rec):
                 for padded in (False, True):
                     for mode in (False, True):
                         L = len(s) + dL
-                        if L < 0:
-                            continue
                         hist = [("add_char", 7), ("mode", mode), (meth, s, L, padded), ("add_byte", 255)]
                         run_history(W, rec, hist)
                         rec.case(hist)
+                        n += 1
+    # a declared length below zero is violated by every string, the empty one included
+    for meth in ("add_fixed_string", "add_fixed_encoded_string"):
+        for s in ("", "a", "ÿb"):
+            for L in (-1, -2, -7, -256, -(2 ** 40)):
+                for padded in (False, True):
+                    for mode in (False, True):
+                        hist = [("add_char", 7), ("mode", mode), (meth, s, L, padded), ("add_byte", 255)]
+                        run_history(W, rec, hist)
+                        rec.case(hist)
+                        rec.count("negative-declared-lengths")
                         n += 1
     for name, kind in INT_OPS.items():
         lim = V.LIMITS[kind]
